@@ -26,6 +26,10 @@ impl<T: Send + Sync> Drop for ConIterOfVec<T> {
         if current <= self.vec_len {
             let _remaining_vec_to_be_dropped = unsafe { self.split_off_right(current) };
         }
+
+        // elements remaining in the left part are already moved out: only its buffer is released
+        let mut left_vec = unsafe { ManuallyDrop::take(&mut *self.vec.get()) };
+        unsafe { left_vec.set_len(0) };
     }
 }
 
